@@ -24,4 +24,5 @@ def run(ctx, rep):
     fixtures.run_controls(rep, ['E2'], lambda: ctx.reload())
     rep.rule('E19', e19_homcalc.__doc__.strip().split('\n')[0])
     e19_homcalc.run(facts, rep)
+    e19_homcalc.check_summand(facts, rep)
     e2_float.apply(facts, rep, scope, 'C07', floor_scope=5)
